@@ -288,6 +288,17 @@ def recursion_cases():
     return out
 
 
+def slow_cases():
+    """inputs of a few kilobytes on which an algorithm of the compiler is more than linear"""
+    out = []
+    for n in (200, 800):
+        body = b"".join(b"    call S as C%d(\n        x = C%d.y,\n    )\n\n" % (i, i + 1) for i in range(n - 1))
+        body += b"    call S as C%d(\n        x = 1,\n    )\n\n" % (n - 1)
+        out.append(case("slow:chain_rev:%d" % n, "compile",
+                        STAGE + b"pipeline P(\n    out int y,\n)\n{\n" + body + b"    return (\n        y = C0.y,\n    )\n}\n"))
+    return out
+
+
 def incl_case(i, row):
     """a row of spec/Incl.tla: the top file includes one file per element of row["seq"]"""
     files = {}
